@@ -1114,12 +1114,12 @@ func (g *gen) cluster() ClusterJ {
 	}
 	// three external addresses at the edges of the trace's ipBlock pool (first/last of a cidr or except,
 	// or one step outside); TLC adds the complete edge set of every CIDR of every case on its own.
-	for len(c.Ext) < 3 {
+	for tries := 0; len(c.Ext) < 3; tries++ {
 		b := g.blocks[g.r.Intn(len(g.blocks))]
 		cs := append([]CIDRJ{b.CIDR}, b.Except...)
 		cc := cs[g.r.Intn(len(cs))]
 		a := edgeAddr(cc, g.r.Intn(4))
-		if a == nil {
+		if a == nil || tries > 20 { // no (more) free edge address: any outside address
 			a = []int{192, 168, 200, 1 + g.r.Intn(200)}
 			if g.v6 {
 				a = make([]int, 16)
